@@ -376,6 +376,12 @@ class FnTranslator:
                         raise Refuse('%s: `in` a dict with string keys on type %s' % (self.rel, a[1]))
                     t = '(mem_string %s [%s])' % (a[0], '; '.join(slit(k) for k, _ in env[rhs.id][0]))
                     return (t if isinstance(op, ast.In) else '(negb %s)' % t, 'B')
+                if not isinstance(rhs, (ast.List, ast.Tuple, ast.Set)) and a[1] == 'S' \
+                        and env.get(ast.unparse(rhs), ('', ''))[1] == 'LS':
+                    # [loop ties e4] `s in L` / `s not in L` with L a declared list of strings (type LS: a Python list / tuple
+                    # of str) and s a str: membership by string equality -- Base/Str.v mem_string
+                    t = '(mem_string %s %s)' % (a[0], env[ast.unparse(rhs)][0])
+                    return (t if isinstance(op, ast.In) else '(negb %s)' % t, 'B')
                 if not isinstance(rhs, (ast.List, ast.Tuple, ast.Set)):
                     raise Refuse('`in` only against a literal sequence')
                 items = [self.expr(e, env) for e in rhs.elts]
@@ -1507,6 +1513,25 @@ class FnTranslator:
             if len(nms) == 1:
                 return '(let %s := %s in\n   %s)' % (nms[0], whole, body)
             return "(let '(%s) := %s in\n   %s)" % (', '.join(nms), whole, body)
+        if isinstance(s, ast.Expr) and isinstance(s.value, ast.Call) and isinstance(s.value.func, ast.Attribute) \
+                and s.value.func.attr == 'remove' and isinstance(s.value.func.value, ast.Name) \
+                and len(s.value.args) == 1 and not s.value.keywords and env.get(s.value.func.value.id, ('', ''))[1] == 'LS':
+            # [loop ties e4] `L.remove(x)` on a list of strings L (type LS, a value in the translation) with x a str: L without
+            # the FIRST item equal to x; when no item equals x Python raises ValueError -- an error path outside the
+            # translation (recorded).  Emitted as a closed local fixpoint (no library dependency).
+            lname = s.value.func.value.id
+            x = self.expr(s.value.args[0], env)
+            if x[1] != 'S':
+                raise Refuse('%s: %s.remove(x) with x of type %s' % (self.rel, lname, x[1]))
+            g = '%s not in %s   (ValueError at %s)' % (ast.unparse(s.value.args[0]), lname, ast.unparse(s.value))
+            if g not in self.guards:
+                self.guards.append(g)
+            nm, xv = self.new(lname), self.new('rm_x')
+            env2 = dict(env)
+            env2[lname] = (nm, 'LS')
+            term = ('(let %s := %s in (fix rm_ (l_ : list string) : list string := match l_ with nil => nil '
+                    '| cons y_ t_ => if String.eqb %s y_ then t_ else cons y_ (rm_ t_) end) %s)' % (xv, x[0], xv, env[lname][0]))
+            return '(let %s := %s in\n   %s)' % (nm, term, self.block(rest, env2, ret))
         if isinstance(s, ast.For) and getattr(self, 'yield_types', None) and 'yield__' in env:
             return self.yield_only_for(s, rest, env, ret)          # [loop ties C06]
         if isinstance(s, ast.Try):
